@@ -164,6 +164,11 @@ class GMRF(Distribution):
                 raise ValueError('Precision must be a scalar or a 1D array with a single scalar element.')
         self._prec = value
 
+    @property
+    def rank(self):
+        """ Rank of the precision matrix (the exponent of the precision parameter in the density is rank/2). """
+        return self._rank
+
     def logpdf(self, x):
         mean = self.mean
         const = 0.5*(self._rank*(np.log(self.prec)-np.log(2*np.pi)) + self._logdet)
